@@ -913,6 +913,56 @@ def syscall_crashes(ctx: Ctx, res: Result, path: str, pre: List[int], b: int, ba
 # ------------------------------------------------------------------------------------------ F: faults
 
 
+def explore_read_faults(ctx: Ctx) -> Result:
+    """A query interrupted at EVERY VM step (progress handler of the reading connection returns 1): filter / list_modules
+    either raise or give the complete right answer - never a short or empty one."""
+    from monkeytype.db.sqlite import SQLiteStore
+
+    res = Result()
+    path = str(ctx.tmp / "rf.sqlite3")
+    stores, model = apply_history(path, [("add", 0, b) for b in (0, 1, 5, 13)])
+    stores[0].conn.close()
+    want_rows = {r for r in model if r[0] == "m"}
+    want_mods = sorted({r[0] for r in model})
+    for opname in ("filter", "list_modules"):
+        n = 0
+        while True:
+            n += 1
+            st = SQLiteStore.make_store(path)
+            cnt = [0]
+
+            def h() -> int:
+                cnt[0] += 1
+                return 1 if cnt[0] == n else 0
+
+            st.conn.set_progress_handler(h, 1)
+            res.states += 1
+            res.transitions += 1
+            res.evaluations += 1
+            res.validated += 1
+            case = {"part": "RF", "op": opname, "abort_at": n}
+            try:
+                if opname == "filter":
+                    got = {(t.module, t.qualname, t.arg_types, t.return_type, t.yield_type) for t in st.filter("m", None, 1000)}
+                    if got != want_rows:
+                        res.violate(Violation(ID, "count", "interrupted-query-answered-short", case, f"filter('m') interrupted at VM step {n} returned {len(got)} of {len(want_rows)} rows instead of raising"))
+                else:
+                    got_m = sorted(st.list_modules())
+                    if got_m != want_mods:
+                        res.violate(Violation(ID, "list_modules", "interrupted-query-answered-short", case, f"list_modules interrupted at VM step {n} returned {got_m} instead of raising (model {want_mods})"))
+            except sqlite3.OperationalError:
+                res.oblige("RF:interrupted-query-raised", True)
+            except Exception as e:  # noqa: BLE001
+                res.violate(Violation(ID, "exception", "interrupted-query", case, f"{opname} interrupted at step {n} raised {e!r}"))
+            finally:
+                st.conn.set_progress_handler(None, 1)
+                st.conn.close()
+            if cnt[0] < n or n > 3000:
+                break
+        res.bounds[f"RF_steps[{opname}]"] = n - 1
+    return res
+
+
 def explore_faults(ctx: Ctx) -> Result:
     combos = [(pre, b) for pre in ([], [0, 5]) for b in (1, 2, 7, 8, 9, 6)] + [([], BIG)]
 
@@ -991,17 +1041,45 @@ def explore_faults(ctx: Ctx) -> Result:
 # ------------------------------------------------------------------------------------------ driver
 
 
+def _guarded(part: str, fn, *a) -> Result:
+    """An exception of the STORE that escapes an exploration (outside the places where failures are expected) is a
+    finding about the store, not a harness error: e.g. `no such table` because a new store object for a re-created file
+    was answered from a connection to the old one."""
+    try:
+        return fn(*a)
+    except HarnessError as e:
+        if "sqlite3." not in str(e) and "monkeytype" not in str(e):
+            raise
+        r = Result()
+        r.violate(Violation(ID, "exception", "store-raised-during-exploration:" + part, {"part": "G", "which": part}, f"exploration part {part} stopped with an exception of the store: {str(e)[-600:]}"))
+        return r
+    except (sqlite3.Error, OSError) as e:
+        r = Result()
+        r.violate(Violation(ID, "exception", "store-raised-during-exploration:" + part, {"part": "G", "which": part}, f"exploration part {part} stopped with {e!r}"))
+        return r
+
+
 def run(ctx: Ctx) -> Result:
     res = Result()
-    res.merge(explore_histories(ctx, 3 if ctx.quick else 4))
-    res.merge(explore_extras(ctx))
-    res.merge(explore_schedules(ctx, pairs=not ctx.quick))
-    res.merge(explore_proc_schedules(ctx))
-    res.merge(explore_crashes(ctx, syscalls=not ctx.quick))
-    res.merge(explore_faults(ctx))
+    for part, fn, args in (
+        ("H", explore_histories, (ctx, 3 if ctx.quick else 4)), ("X", explore_extras, (ctx,)), ("S", explore_schedules, (ctx, not ctx.quick)),
+        ("P", explore_proc_schedules, (ctx,)), ("K", explore_crashes, (ctx, not ctx.quick)), ("F", explore_faults, (ctx,)), ("RF", explore_read_faults, (ctx,)),
+    ):
+        try:
+            res.merge(_guarded(part, fn, *args))
+        except HarnessError as e:
+            if not res.violations:
+                raise
+            # the store already misbehaved in an earlier part: a later part whose own set-up relies on a working store
+            # cannot be explored; the violations found so far stand
+            res.caps.append(f"part {part} not explored after earlier violations: {str(e)[-200:]}")
+    return _finish(res)
+
+
+def _finish(res: Result) -> Result:
     for o in (
         "H:query-distinguishing-LIKE-from-prefix", "H:state-with-duplicates", "H:multi-connection-state",
-        "X:same-row-committed-on-different-days", "X:tables-with-different-modules", "X:large-batch-whole",
+        "RF:interrupted-query-raised", "X:same-row-committed-on-different-days", "X:tables-with-different-modules", "X:large-batch-whole",
         "S:second-writer-committed-inside", "P:other-process-committed-while-writer-paused", "K:crash-before-commit", "K:crash-after-commit", "F:abort-rolled-back",
     ):
         res.obligations.setdefault(o, False)
@@ -1039,6 +1117,11 @@ def replay(case: Dict[str, Any], ctx: Ctx) -> List[Violation]:
                 check_queries(st, model, res, dict(case, conn=i), f"two-table history {hist} store {i}")
         finally:
             sq.datetime = old  # type: ignore[assignment]
+    elif part == "G":
+        fn = {"H": lambda: explore_histories(ctx, 3), "X": lambda: explore_extras(ctx), "S": lambda: explore_schedules(ctx, False), "P": lambda: explore_proc_schedules(ctx), "K": lambda: explore_crashes(ctx, False), "F": lambda: explore_faults(ctx), "RF": lambda: explore_read_faults(ctx)}[case["which"]]
+        return _guarded(case["which"], fn).violations
+    elif part == "RF":
+        return [v for v in explore_read_faults(ctx).violations if v.case.get("op") == case.get("op")]
     elif part == "P":
         run_proc_schedule(path, case["pre"], case["a"], case["step"], case["op"], case["b"], res, case)
     elif part == "S":
